@@ -531,7 +531,10 @@ class cleanup_functools_wrapper(object):
 _being_examined = threading.local()
 
 
-def autoforwards_function(func, args, kwargs):
+def _examine_once(func, args, kwargs, examine):
+    """Runs ``examine()`` unless ``func`` is already being examined with the
+    same known arguments further up the stack, ie. unless it forwards to
+    itself, directly or through other functions"""
     try:
         examined = _being_examined.funcs
     except AttributeError:
@@ -547,13 +550,27 @@ def autoforwards_function(func, args, kwargs):
             if not isinstance(a, Unknown)),
         )
     if key in examined:
-        # func forwards to itself, directly or through other functions
         raise UnknownForwards
     examined.append(key)
     try:
-        return _autoforwards_function(func, args, kwargs)
+        return examine()
     finally:
         examined.pop()
+
+
+def autoforwards_function(func, args, kwargs):
+    return _examine_once(
+        func, args, kwargs,
+        lambda: _autoforwards_function(func, args, kwargs))
+
+
+def autoforwards_hinted(hint, args, kwargs):
+    """`autoforwards_ast` for what an ``_sigtools__autoforwards_hint`` method
+    returned (function, ast, signature), with the same protection against
+    functions that forward to themselves as `autoforwards_function`"""
+    return _examine_once(
+        hint[0], args, kwargs,
+        lambda: autoforwards_ast(*hint, args=args, kwargs=kwargs))
 
 
 def _annotations_owner(func):
